@@ -45,7 +45,69 @@ def contracts():
         class_fields=CF, macros=MACROS, returns="val", native={"patches": NATIVE["patches"], "skip": True},
         property_clauses={"last_added_or_none": "C20", "is_the_last": "C20"},
         doc={"is_the_last": "C20: 'a member with source-mode: preceding reads exactly the lines its predecessor collected'"}))
-    return cs + managers.interfaces()
+    return cs + managers.interfaces() + load_contracts()
+
+
+CPS = "csvpath/csvpaths.py"
+CF["CsvPath"].update({"g_identity": "str", "g_preceding": "bool", "g_last_parsed": "str", "g_parse_calls": "int", "metadata": "dict[str,val]"})
+CF["Result"] = {**CF.get("Result", {}), "g_data_file_path": "str"}
+CF["ResultsManager"].update({"g_pred": "obj:Result"})
+
+
+def load_contracts():
+    cs = []
+
+    def iface(target, types, ensures=None, modifies=None, returns="none", raises=None, why="", variant=""):
+        cs.append(Contract(target=target, interface=True, variant=variant, types=types, ensures=ensures or {}, modifies=modifies or [], returns=returns, raises=raises or {},
+                           class_fields=CF, assumptions=[why]))
+    iface("csvpath/util/metadata_parser.py::MetadataParser.extract_metadata", {"instance": "val", "csvpath": "str"}, returns="str",
+          ensures={"strips_the_outer_comment": "result == ufun_str('without_outer_comment', csvpath)"}, why="MetadataParser.extract_metadata returns the csvpath without its outer comment (C15)")
+    iface("csvpath/csvpath.py::CsvPath.identity", {}, returns="str", ensures={"id": "result == self.g_identity"}, why="CsvPath.identity is the id/name metadata field (C12)")
+    iface("csvpath/csvpath.py::CsvPath.update_settings_from_metadata", {}, why="update_settings_from_metadata reads the mode settings (C15); g_preceding is its source-mode result")
+    iface("csvpath/csvpath.py::CsvPath.data_from_preceding", {}, returns="bool", ensures={"mode": "result == self.g_preceding"}, why="CsvPath.data_from_preceding is source-mode == preceding (C15)")
+    iface(f"{RM}::ResultsManager.data_file_for_reference", {"refstr": "val", "not_name": "val"}, returns="str",
+          ensures={"ref": "result == ufun_str('data_file_for_reference', refstr)"}, why="data_file_for_reference resolves a results reference to a member's data.csv (bounded, C20.B)")
+    iface(f"{RM}::ResultsManager.get_last_named_result", {"name": "val", "before": "val"}, returns="expr:self.g_pred", variant="found",
+          ensures={"the_predecessor": "result is self.g_pred"}, why="get_last_named_result returns the predecessor's Result (own contract: get_last_named_result)")
+    iface(f"{RM}::ResultsManager.get_last_named_result", {"name": "val", "before": "val"}, returns="none", variant="none_found",
+          why="get_last_named_result returns None when no earlier member has a result")
+    iface("csvpath/managers/results/result.py::Result.data_file_path", {}, returns="str", ensures={"p": "result == self.g_data_file_path"},
+          why="Result.data_file_path is <instance dir>/data.csv (C09)")
+    iface("csvpath/csvpath.py::CsvPath.parse", {"csvpath": "str", "disposably": "val"}, modifies=["self.g_last_parsed", "self.g_parse_calls"], returns="val",
+          ensures={"parsed": "self.g_last_parsed == csvpath and self.g_parse_calls == old(self.g_parse_calls) + 1"}, raises={"Exception": {"when": "True", "exact": False}},
+          why="CsvPath.parse(text) parses text (C17); the text handed to it is logged in g_last_parsed / g_parse_calls")
+    HAS_BRACKET = "'[' in ufun_str('without_outer_comment', path)"
+    match_part = "ufun_str('without_outer_comment', path)[ufun_str('without_outer_comment', path).find('['):]"
+    types = {"csvpath": "obj:CsvPath", "path": "str", "file": "str", "pathsname": "str", "filename": "str", "by_line": "bool", "self.results_manager": "obj:ResultsManager",
+             "csvpath.metadata": "dict[str,val]", "csvpath.g_last_parsed": "str", "csvpath.g_parse_calls": "int"}
+    common = dict(class_fields=CF, macros=MACROS, returns="none", native={"skip": True}, stub_new=["MetadataParser"])
+    cs.append(Contract(
+        target=f"{CPS}::CsvPaths._load_csvpath", variant="preceding_with_a_predecessor", types=types,
+        requires=["csvpath.g_preceding", "not filename.startswith('$')", "not pathsname.startswith('$')", HAS_BRACKET],
+        modifies=["csvpath.g_last_parsed", "csvpath.g_parse_calls", "csvpath.metadata"],
+        raises={"CsvPathsException": {"when": "by_line", "exact": True}, "Exception": {"when": "True", "exact": False}},
+        ensures={"reads_the_predecessors_data_file": "csvpath.g_parse_calls == old(csvpath.g_parse_calls) + 1 and "
+                                                     "csvpath.g_last_parsed == '$' + self.results_manager.g_pred.g_data_file_path + %s" % match_part,
+                 "says_so_in_the_metadata": "'source-mode-source' in csvpath.metadata and same(csvpath.metadata['source-mode-source'], self.results_manager.g_pred.g_data_file_path)"},
+        callee_variants={"ResultsManager.get_last_named_result": "found"},
+        property_clauses={"reads_the_predecessors_data_file": "C20", "says_so_in_the_metadata": "C20", "raises:CsvPathsException.must": "C20"},
+        doc={"reads_the_predecessors_data_file": "C20: 'a member with source-mode: preceding reads exactly the lines its predecessor collected'"}, **common))
+    cs.append(Contract(
+        target=f"{CPS}::CsvPaths._load_csvpath", variant="origin_mode", types=types,
+        requires=["not csvpath.g_preceding", "not filename.startswith('$')", HAS_BRACKET],
+        modifies=["csvpath.g_last_parsed", "csvpath.g_parse_calls", "csvpath.metadata"], raises={"Exception": {"when": "True", "exact": False}},
+        ensures={"reads_the_named_file": "csvpath.g_parse_calls == old(csvpath.g_parse_calls) + 1 and csvpath.g_last_parsed == '$' + file + %s" % match_part,
+                 "metadata_does_not_claim_a_predecessor": "('source-mode-source' in csvpath.metadata) == ('source-mode-source' in old(csvpath.metadata))"},
+        callee_variants={"ResultsManager.get_last_named_result": "found"},
+        property_clauses={"reads_the_named_file": "C20", "metadata_does_not_claim_a_predecessor": "C20"}, **common))
+    cs.append(Contract(
+        target=f"{CPS}::CsvPaths._load_csvpath", variant="results_reference_as_file", types=types,
+        requires=["not csvpath.g_preceding", "filename.startswith('$')", HAS_BRACKET],
+        modifies=["csvpath.g_last_parsed", "csvpath.g_parse_calls", "csvpath.metadata"], raises={"Exception": {"when": "True", "exact": False}},
+        ensures={"reads_the_referenced_members_data_file": "csvpath.g_last_parsed == '$' + ufun_str('data_file_for_reference', filename) + %s" % match_part},
+        callee_variants={"ResultsManager.get_last_named_result": "found"},
+        property_clauses={"reads_the_referenced_members_data_file": "C20"}, **common))
+    return cs
 
 
 def bounded(tier, seed):
@@ -57,4 +119,5 @@ def bounded(tier, seed):
 LEVEL = "other"
 EXPLANATION = ("Proved: Reference._variable_value returns the stored final value whatever it is (0, False, '' included) and raises exactly when the variable is "
                "unknown; get_last_named_result returns the last added result. Bounded: source-mode preceding chains and references on the real CsvPaths. "
-               "_load_csvpath's source-mode branch is covered only by the bounded chains.")
+               "Proved too: CsvPaths._load_csvpath hands CsvPath.parse exactly '$' + <the predecessor's data.csv> + <match part> in source-mode preceding (and says so in the metadata), "
+               "'$' + <named file> otherwise, '$' + <referenced member's data.csv> for a results reference; breadth-first + preceding raises.")
